@@ -1,5 +1,7 @@
-From Verif Require Import Base.Sx Model.Batcher.
-From Coq Require Import Lia.
+From Verif Require Import Base.Sx Model.Batcher Gen.BatcherGen.
+From Coq Require Import Lia ZifyBool Bool List ZArith FinFun.
+Import ListNotations.
+Local Open Scope Z_scope.
 
 (* generic: an invariant preserved by every enabled step holds in every reachable state *)
 Lemma run_invariant (c : cfg) (P : st -> Prop) :
@@ -9,4 +11,1295 @@ Proof.
   intros Hstep ls. induction ls as [|l r IH]; intros s s' Hs Hr; cbn [run] in Hr.
   - inversion Hr; subst; exact Hs.
   - destruct (step c s l) as [s1|] eqn:E; [|discriminate]. eapply IH; [eapply Hstep; eauto|exact Hr].
+Qed.
+
+(* ------------------------------------------------------------------------------------------- *)
+(* inversion of [step]: split every test of the big match, normalise the boolean guards         *)
+
+Ltac bnorm :=
+  repeat match goal with
+  | H : _ && _ = true |- _ => apply andb_true_iff in H; destruct H
+  | H : negb _ = true |- _ => apply negb_true_iff in H
+  | H : negb _ = false |- _ => apply negb_false_iff in H
+  | H : (_ =? _) = true |- _ => apply Z.eqb_eq in H
+  | H : (_ =? _) = false |- _ => apply Z.eqb_neq in H
+  | H : (_ <? _) = true |- _ => apply Z.ltb_lt in H
+  | H : (_ <? _) = false |- _ => apply Z.ltb_ge in H
+  | H : (_ <=? _) = true |- _ => apply Z.leb_le in H
+  | H : (_ <=? _) = false |- _ => apply Z.leb_gt in H
+  | H : Bool.eqb _ _ = true |- _ => apply Bool.eqb_prop in H
+  end.
+
+Ltac step_split H :=
+  repeat match type of H with
+  | match ?x with _ => _ end = Some _ => destruct x eqn:?; try discriminate H
+  end.
+
+Ltac proj_simpl :=
+  cbn [cur deciding free flight queue outSeq commitSeq stopped crashed added sealed_hist sent_hist
+       committed commit_batches failed_hist result_hist upd with_flight] in *.
+
+(* after [step_inv H] the post-state is an explicit record, every guard is a hypothesis *)
+Ltac step_inv H :=
+  unfold step in H; step_split H; injection H as H; subst; bnorm; proj_simpl.
+
+(* ------------------------------------------------------------------------------------------- *)
+(* list helpers                                                                                  *)
+
+Lemma find_bat_In fl q b : find_bat fl q = Some b -> In b fl /\ bseq b = q.
+Proof.
+  induction fl as [|x r IH]; cbn [find_bat]; [discriminate|].
+  destruct (bseq x =? q) eqn:E; intros H.
+  - inversion H; subst. split; [left; reflexivity|lia].
+  - destruct (IH H); split; [right|]; assumption.
+Qed.
+
+Lemma In_upd_bat fl q f b :
+  In b (upd_bat fl q f) -> In b fl \/ exists b0, find_bat fl q = Some b0 /\ b = f b0.
+Proof.
+  induction fl as [|x r IH]; cbn [upd_bat find_bat]; [tauto|].
+  destruct (bseq x =? q) eqn:E; cbn [In]; intros [H|H].
+  - right; exists x; split; [reflexivity|symmetry; exact H].
+  - left; right; exact H.
+  - left; left; exact H.
+  - destruct (IH H) as [H1|H1]; [left; right; exact H1|right; exact H1].
+Qed.
+
+Lemma In_del_bat fl q b : In b (del_bat fl q) -> In b fl.
+Proof.
+  induction fl as [|x r IH]; cbn [del_bat]; [tauto|].
+  destruct (bseq x =? q); cbn [In]; [tauto|]. intros [H|H]; [left; exact H|right; exact (IH H)].
+Qed.
+
+Lemma bseq_set_stage g b : bseq (set_stage g b) = bseq b. Proof. reflexivity. Qed.
+Lemma bevs_set_stage g b : bevs (set_stage g b) = bevs b. Proof. reflexivity. Qed.
+Lemma bstage_set_stage g b : bstage (set_stage g b) = g. Proof. reflexivity. Qed.
+Lemma bemptied_set_stage g b : bemptied (set_stage g b) = bemptied b. Proof. reflexivity. Qed.
+
+(* ------------------------------------------------------------------------------------------- *)
+(* 2. commit sections start in sequence order                                                    *)
+
+Fixpoint countdown (n : nat) : list Z := match n with O => [] | S k => Z.of_nat k :: countdown k end.
+
+Definition inv_commit_order (s : st) : Prop :=
+  0 <= commitSeq s /\ commit_batches s = countdown (Z.to_nat (commitSeq s)).
+
+Lemma countdown_S z : 0 <= z -> countdown (Z.to_nat (z + 1)) = z :: countdown (Z.to_nat z).
+Proof. intros Hz. replace (Z.to_nat (z + 1)) with (S (Z.to_nat z)) by lia. cbn [countdown]. f_equal. lia. Qed.
+
+Lemma inv_commit_order_step c s l s' : inv_commit_order s -> step c s l = Some s' -> inv_commit_order s'.
+Proof.
+  intros [H0 H1] H. unfold inv_commit_order. destruct l; step_inv H; try (split; assumption).
+  split; [lia|]. rewrite countdown_S by lia. rewrite H1. subst seq. reflexivity.
+Qed.
+
+Lemma inv_commit_order_init c : inv_commit_order (init c).
+Proof. split; cbn; [lia|reflexivity]. Qed.
+
+Lemma countdown_rev n : rev (countdown n) = map Z.of_nat (seq 0 n).
+Proof.
+  induction n as [|n IH]; [reflexivity|]. cbn [countdown rev]. rewrite IH.
+  rewrite seq_S, map_app. reflexivity.
+Qed.
+
+Lemma commit_in_seq_order c ls s :
+  run c (init c) ls = Some s ->
+  0 <= commitSeq s /\ rev (commit_batches s) = map Z.of_nat (seq 0 (Z.to_nat (commitSeq s))).
+Proof.
+  intros Hr.
+  destruct (run_invariant c inv_commit_order (inv_commit_order_step c) ls _ _ (inv_commit_order_init c) Hr) as [H0 H1].
+  split; [exact H0|]. rewrite H1. apply countdown_rev.
+Qed.
+
+Lemma commit_each_once c ls s : run c (init c) ls = Some s -> NoDup (commit_batches s).
+Proof.
+  intros Hr. destruct (commit_in_seq_order c ls s Hr) as [_ H].
+  assert (Hn : NoDup (rev (commit_batches s))).
+  { rewrite H. apply FinFun.Injective_map_NoDup; [intros x y Hxy; apply Nat2Z.inj; exact Hxy|apply seq_NoDup]. }
+  rewrite <- (rev_involutive (commit_batches s)). apply NoDup_rev. exact Hn.
+Qed.
+
+(* ------------------------------------------------------------------------------------------- *)
+(* 7. Stop never panics when the channel send is inside the critical section                     *)
+
+Definition inv_nopanic (s : st) : Prop :=
+  crashed s = false /\ (deciding s = true -> stopped s = false) /\
+  (stopped s = true -> forall b, In b (flight s) -> bstage b <> Pending).
+
+Ltac in_upd Hb :=
+  let b0 := fresh "b0" in let Hf := fresh "Hf" in
+  apply In_upd_bat in Hb; destruct Hb as [Hb|[b0 [Hf ->]]].
+
+Lemma inv_nopanic_step c s l s' :
+  atomic_push c = true -> inv_nopanic s -> step c s l = Some s' -> inv_nopanic s'.
+Proof.
+  intros Ha (H0 & H1 & H2) H. unfold inv_nopanic.
+  destruct l; step_inv H;
+    try (split; [assumption|split; [solve [auto|intros; congruence]|]]);
+    try solve [assumption | intros; congruence
+              | intros Hs x Hx; in_upd Hx; [eauto|cbn [bstage set_stage]; discriminate]
+              | intros Hs x Hx; apply In_del_bat in Hx; eauto ].
+  - (* Seal *) intros Hs. rewrite (H1 H) in Hs. discriminate.
+  - (* Push on a closed channel: excluded *)
+    exfalso. match goal with Hf : find_bat _ _ = Some ?b, Hp : bstage ?b = Pending |- _ =>
+      destruct (find_bat_In _ _ _ Hf) as [Hin _]; exact (H2 eq_refl _ Hin Hp) end.
+  - (* Stop *) intros _ x Hx Hp. rewrite Ha in H3. cbn [negb orb] in H3. apply negb_true_iff in H3.
+    assert (Hex : existsb (fun b => match bstage b with Pending => true | _ => false end) (flight s) = true).
+    { apply existsb_exists. exists x. split; [exact Hx|rewrite Hp; reflexivity]. }
+    congruence.
+Qed.
+
+Lemma inv_nopanic_init c : inv_nopanic (init c).
+Proof. repeat split; cbn; intros; try congruence; contradiction. Qed.
+
+Lemma stop_never_panics c ls s :
+  atomic_push c = batcher_atomic_push -> run c (init c) ls = Some s -> crashed s = false.
+Proof.
+  intros Ha Hr. unfold batcher_atomic_push in Ha.
+  exact (proj1 (run_invariant c inv_nopanic (fun s0 l s1 => inv_nopanic_step c s0 l s1 Ha) ls _ _ (inv_nopanic_init c) Hr)).
+Qed.
+
+Definition ev1 : ev := {| eid := 1; esrc := 0; esize := 1; ekind := 0 |}.
+Definition cfg_noatomic : cfg :=
+  {| workers := 1; maxCount := 1; maxBytes := 0; retriable := false; retry := 0; deadq := false; atomic_push := false |}.
+
+Lemma stop_panics_without_atomic_push :
+  exists c ls s, atomic_push c = false /\ run c (init c) ls = Some s /\ crashed s = true.
+Proof.
+  exists cfg_noatomic, [LFree; LAdd ev1; LSeal 0 1 1 1; LStop; LPush 0].
+  eexists. split; [reflexivity|]. split; [vm_compute; reflexivity|reflexivity].
+Qed.
+
+(* ------------------------------------------------------------------------------------------- *)
+(* 8. the NotReady decision is impossible for a non-empty batch older than the flush timeout     *)
+
+Lemma idle_flush_decision c s n b el tmo s' :
+  step c s (LNotReady n b el tmo) = Some s' -> n <> 0 -> el <= tmo.
+Proof.
+  intros H Hn. step_inv H. apply orb_true_iff in H0. destruct H0 as [H0|H0]; bnorm; [contradiction|assumption].
+Qed.
+
+(* ------------------------------------------------------------------------------------------- *)
+(* 1. size bounds of sealed batches                                                              *)
+
+Definition not_size_ready (c : cfg) (l : list ev) : Prop :=
+  (maxCount c = 0 \/ Z.of_nat (length l) < maxCount c) /\ (maxBytes c = 0 \/ bytes_of l < maxBytes c).
+
+Definition batch_ok (c : cfg) (b : list ev) : Prop :=
+  b <> [] /\ (not_size_ready c b \/ exists b0 e, b = b0 ++ [e] /\ not_size_ready c b0).
+
+Lemma size_ready_false c l :
+  size_ready c (Z.of_nat (length l)) (bytes_of l) = false <-> not_size_ready c l.
+Proof. unfold size_ready, not_size_ready. lia. Qed.
+
+Lemma bytes_of_app a b : bytes_of (a ++ b) = bytes_of a + bytes_of b.
+Proof. induction a as [|x a IH]; cbn [bytes_of app]; lia. Qed.
+
+Lemma bytes_of_rev l : bytes_of (rev l) = bytes_of l.
+Proof. induction l as [|x l IH]; cbn [bytes_of rev]; [reflexivity|]. rewrite bytes_of_app, IH. cbn [bytes_of]. lia. Qed.
+
+Lemma nsr_rev c l : not_size_ready c l -> not_size_ready c (rev l).
+Proof. unfold not_size_ready. rewrite rev_length, bytes_of_rev. tauto. Qed.
+
+Lemma nsr_nil c : 0 <= maxCount c -> 0 <= maxBytes c -> not_size_ready c [].
+Proof. unfold not_size_ready. cbn [length bytes_of]. lia. Qed.
+
+Definition inv_bounds (c : cfg) (s : st) : Prop :=
+  (forall b, In b (sealed_hist s) -> batch_ok c b) /\
+  match cur s with
+  | None => True
+  | Some l0 => (deciding s = false -> not_size_ready c l0) /\
+               (deciding s = true -> not_size_ready c l0 \/ exists e t, l0 = e :: t /\ not_size_ready c t)
+  end.
+
+Lemma inv_bounds_step c s l s' :
+  0 <= maxCount c -> 0 <= maxBytes c -> inv_bounds c s -> step c s l = Some s' -> inv_bounds c s'.
+Proof.
+  intros Hc Hb [Hsl Hcu] H. unfold inv_bounds.
+  destruct l; step_inv H; try (split; [exact Hsl|]); try exact Hcu;
+    try match type of Hcu with _ /\ _ => destruct Hcu as [Hd0 Hd1] end.
+  - (* Free *) split; intros _; [|left]; apply nsr_nil; assumption.
+  - (* Add *) split; [intros; discriminate|]. intros _. right. eexists _, _. split; [reflexivity|auto].
+  - (* Tick *) destruct (cur s) as [l0|]; [|exact I]. destruct Hcu as [Hd0 Hd1].
+    split; [intros; discriminate|]. intros _. left. auto.
+  - (* NotReady *) split; [|intros; discriminate]. intros _.
+    apply orb_true_iff in H0. destruct H0 as [H0|H0]; bnorm.
+    + destruct l; [apply nsr_nil; assumption|cbn [length] in *; lia].
+    + subst. apply size_ready_false. assumption.
+  - (* Seal *) split; [|exact I]. intros b [Hb0|Hb0]; [|auto]. subst b. rewrite rev_append_rev, app_nil_r.
+    split; [destruct l; [cbn [length] in *; lia|cbn [rev]; intros E; apply app_eq_nil in E; destruct E; discriminate]|].
+    destruct (Hd1 H) as [Hn|(e & t & -> & Hn)]; [left; apply nsr_rev; exact Hn|].
+    right. exists (rev t), e. split; [reflexivity|apply nsr_rev; exact Hn].
+Qed.
+
+Lemma inv_bounds_init c : inv_bounds c (init c).
+Proof. split; cbn; [contradiction|exact I]. Qed.
+
+Lemma batch_bounds c ls s :
+  0 <= maxCount c -> 0 <= maxBytes c -> run c (init c) ls = Some s ->
+  forall b, In b (sealed_hist s) -> batch_ok c b.
+Proof.
+  intros Hc Hb Hr.
+  exact (proj1 (run_invariant c (inv_bounds c) (fun s0 l s1 => inv_bounds_step c s0 l s1 Hc Hb) ls _ _ (inv_bounds_init c) Hr)).
+Qed.
+
+Lemma batch_ok_count c b : batch_ok c b -> 0 < maxCount c -> Z.of_nat (length b) <= maxCount c.
+Proof.
+  intros [_ [[H _]|(b0 & e & -> & [H _])]] Hm; [lia|]. rewrite app_length. cbn [length]. lia.
+Qed.
+
+(* bytes: the limit is exceeded by at most the last event *)
+Lemma batch_ok_bytes c b :
+  batch_ok c b -> 0 < maxBytes c ->
+  bytes_of b < maxBytes c \/ exists b0 e, b = b0 ++ [e] /\ bytes_of b0 < maxBytes c.
+Proof.
+  intros [_ [[_ H]|(b0 & e & -> & [_ H])]] Hm; [left; lia|]. right. exists b0, e. split; [reflexivity|lia].
+Qed.
+
+(* ------------------------------------------------------------------------------------------- *)
+(* 4. added = sealed batches ++ current batch                                                    *)
+
+Definition cur_list (s : st) : list ev := match cur s with Some l => l | None => [] end.
+
+Definition inv_added (s : st) : Prop :=
+  rev (added s) = concat (rev (sealed_hist s)) ++ rev (cur_list s).
+
+Lemma inv_added_step c s l s' : inv_added s -> step c s l = Some s' -> inv_added s'.
+Proof.
+  intros H1 H. unfold inv_added, cur_list in *.
+  destruct l; step_inv H; try exact H1;
+    try match goal with Hcur : cur s = _ |- _ => rewrite Hcur in H1 end; cbn [rev] in *.
+  - (* Add *) rewrite H1, app_assoc. reflexivity.
+  - (* Seal *) rewrite H1, concat_app, rev_append_rev, app_nil_r. cbn [concat]. rewrite !app_nil_r. reflexivity.
+Qed.
+
+Lemma added_is_sealed_plus_current c ls s :
+  run c (init c) ls = Some s -> rev (added s) = concat (rev (sealed_hist s)) ++ rev (cur_list s).
+Proof.
+  intros Hr. assert (Hi : inv_added (init c)) by reflexivity.
+  exact (run_invariant c inv_added (inv_added_step c) ls _ _ Hi Hr).
+Qed.
+
+(* ------------------------------------------------------------------------------------------- *)
+(* structural invariant of the in-flight list                                                    *)
+
+Definition committing (b : bat) : bool := match bstage b with Committing _ => true | _ => false end.
+
+Fixpoint consec (lo : Z) (l : list Z) (hi : Z) : Prop :=
+  match l with [] => lo = hi | x :: r => x = lo /\ consec (lo + 1) r hi end.
+
+Lemma consec_app lo l hi : consec lo l hi -> consec lo (l ++ [hi]) (hi + 1).
+Proof.
+  revert lo. induction l as [|x r IH]; cbn [consec app]; intros lo H.
+  - subst. split; reflexivity.
+  - destruct H as [-> H]. split; [reflexivity|apply IH; exact H].
+Qed.
+
+Lemma consec_bounds lo l hi : consec lo l hi -> lo <= hi /\ forall x, In x l -> lo <= x < hi.
+Proof.
+  revert lo. induction l as [|x r IH]; cbn [consec]; intros lo H.
+  - split; [lia|intros ? []].
+  - destruct H as [-> H]. destruct (IH _ H) as [H1 H2]. split; [lia|].
+    intros y [<-|Hy]; [lia|]. specialize (H2 _ Hy). lia.
+Qed.
+
+Fixpoint zrange (lo : Z) (n : nat) : list Z := match n with O => [] | S k => lo :: zrange (lo + 1) k end.
+
+Lemma consec_zrange lo l hi : consec lo l hi -> l = zrange lo (Z.to_nat (hi - lo)).
+Proof.
+  revert lo. induction l as [|x r IH]; cbn [consec]; intros lo H.
+  - subst. replace (hi - hi) with 0 by lia. reflexivity.
+  - destruct H as [-> H]. pose proof (proj1 (consec_bounds _ _ _ H)) as Hb.
+    replace (Z.to_nat (hi - lo)) with (S (Z.to_nat (hi - (lo + 1)))) by lia.
+    cbn [zrange]. f_equal. apply IH. exact H.
+Qed.
+
+Lemma zrange_NoDup lo n : NoDup (zrange lo n).
+Proof.
+  assert (Hb : forall n lo x, In x (zrange lo n) -> lo <= x).
+  { clear. induction n as [|n IH]; cbn [zrange]; intros lo x; [intros []|].
+    intros [<-|H]; [lia|]. specialize (IH _ _ H). lia. }
+  revert lo. induction n as [|n IH]; intros lo; cbn [zrange]; constructor; [|apply IH].
+  intros H. specialize (Hb _ _ _ H). lia.
+Qed.
+
+Lemma In_find_bat fl b : In b fl -> exists b1, find_bat fl (bseq b) = Some b1.
+Proof.
+  induction fl as [|x r IH]; [intros []|]. cbn [find_bat]. intros [->|H].
+  - rewrite Z.eqb_refl. eexists; reflexivity.
+  - destruct (bseq x =? bseq b); [eexists; reflexivity|exact (IH H)].
+Qed.
+
+(* sequence numbers in flight are pairwise different: find_bat finds THE batch *)
+Lemma find_bat_unique lo fl hi q b b' :
+  consec lo (map bseq fl) hi -> find_bat fl q = Some b -> In b' fl -> bseq b' = q -> b' = b.
+Proof.
+  revert lo. induction fl as [|x r IH]; [intros ? ? ? []|]. cbn [map consec find_bat]. intros lo [Hx Hc] Hf Hin Hq.
+  destruct (bseq x =? q) eqn:E; bnorm.
+  - inversion Hf; subst b. destruct Hin as [->|Hin]; [reflexivity|].
+    pose proof (proj2 (consec_bounds _ _ _ Hc) (bseq b') (in_map bseq _ _ Hin)). lia.
+  - destruct Hin as [->|Hin]; [contradiction|]. exact (IH _ Hc Hf Hin Hq).
+Qed.
+
+Lemma find_bat_of_In lo fl hi b :
+  consec lo (map bseq fl) hi -> In b fl -> find_bat fl (bseq b) = Some b.
+Proof.
+  intros Hc Hin. destruct (In_find_bat _ _ Hin) as [b1 Hb1]. rewrite Hb1. f_equal. symmetry.
+  exact (find_bat_unique _ _ _ _ _ _ Hc Hb1 Hin eq_refl).
+Qed.
+
+Lemma map_bseq_upd fl q f b0 :
+  find_bat fl q = Some b0 -> bseq (f b0) = q -> map bseq (upd_bat fl q f) = map bseq fl.
+Proof.
+  induction fl as [|x r IH]; [discriminate|]. cbn [find_bat upd_bat]. intros Hf Hq.
+  destruct (bseq x =? q) eqn:E; bnorm; cbn [map].
+  - inversion Hf; subst. congruence.
+  - f_equal. exact (IH Hf Hq).
+Qed.
+
+Lemma length_upd_bat fl q f : length (upd_bat fl q f) = length fl.
+Proof. induction fl as [|x r IH]; [reflexivity|]. cbn [upd_bat]. destruct (bseq x =? q); cbn [length]; congruence. Qed.
+
+Lemma find_bat_upd_other fl q f b0 q' :
+  q' <> q -> find_bat fl q = Some b0 -> bseq (f b0) = q -> find_bat (upd_bat fl q f) q' = find_bat fl q'.
+Proof.
+  intros Hne. induction fl as [|x r IH]; [discriminate|]. cbn [find_bat upd_bat]. intros Hf Hq.
+  destruct (bseq x =? q) eqn:E; bnorm; cbn [find_bat].
+  - inversion Hf; subst x. rewrite Hq. destruct (q =? q') eqn:E1; bnorm; [congruence|].
+    destruct (bseq b0 =? q') eqn:E2; bnorm; [congruence|reflexivity].
+  - destruct (bseq x =? q'); [reflexivity|exact (IH Hf Hq)].
+Qed.
+
+Lemma find_bat_upd_same fl q f b0 :
+  find_bat fl q = Some b0 -> bseq (f b0) = q -> find_bat (upd_bat fl q f) q = Some (f b0).
+Proof.
+  induction fl as [|x r IH]; [discriminate|]. cbn [find_bat upd_bat]. intros Hf Hq.
+  destruct (bseq x =? q) eqn:E; bnorm; cbn [find_bat].
+  - inversion Hf; subst x. rewrite Hq, Z.eqb_refl. reflexivity.
+  - rewrite (proj2 (Z.eqb_neq _ _) E). exact (IH Hf Hq).
+Qed.
+
+Lemma find_bat_app fl q b x : find_bat fl q = Some b -> find_bat (fl ++ [x]) q = Some b.
+Proof.
+  induction fl as [|y r IH]; [discriminate|]. cbn [find_bat app]. destruct (bseq y =? q); [auto|exact IH].
+Qed.
+
+Lemma existsb_committing_upd fl q f b0 :
+  find_bat fl q = Some b0 -> committing (f b0) = committing b0 ->
+  existsb committing (upd_bat fl q f) = existsb committing fl.
+Proof.
+  induction fl as [|x r IH]; [discriminate|]. cbn [find_bat upd_bat]. intros Hf Hc.
+  destruct (bseq x =? q) eqn:E; cbn [existsb].
+  - inversion Hf; subst x. rewrite Hc. reflexivity.
+  - f_equal. exact (IH Hf Hc).
+Qed.
+
+Lemma existsb_committing_upd_true fl q f b0 :
+  find_bat fl q = Some b0 -> committing (f b0) = true -> existsb committing (upd_bat fl q f) = true.
+Proof.
+  induction fl as [|x r IH]; [discriminate|]. cbn [find_bat upd_bat]. intros Hf Hc.
+  destruct (bseq x =? q) eqn:E; cbn [existsb].
+  - inversion Hf; subst x. rewrite Hc. reflexivity.
+  - rewrite (IH Hf Hc). apply orb_true_r.
+Qed.
+
+Lemma committing_bat_None fl : committing_bat fl = None -> existsb committing fl = false.
+Proof.
+  unfold committing_bat. induction fl as [|x r IH]; [reflexivity|]. cbn [find existsb].
+  change (match bstage x with Committing _ => true | _ => false end) with (committing x).
+  destruct (committing x); [discriminate|exact IH].
+Qed.
+
+Lemma committing_bat_Some fl b : committing_bat fl = Some b -> In b fl /\ committing b = true.
+Proof. unfold committing_bat. intros H. apply find_some in H. exact H. Qed.
+
+Lemma existsb_committing_true fl b : In b fl -> committing b = true -> existsb committing fl = true.
+Proof. intros Hin Hc. apply existsb_exists. exists b. split; assumption. Qed.
+
+Definition lo_seq (s : st) : Z := commitSeq s - (if existsb committing (flight s) then 1 else 0).
+Definition cur_count (s : st) : Z := match cur s with Some _ => 1 | None => 0 end.
+
+Record WF (c : cfg) (s : st) : Prop := {
+  wf_lo : 0 <= lo_seq s;
+  wf_len : Z.of_nat (length (sealed_hist s)) = outSeq s;
+  wf_consec : consec (lo_seq s) (map bseq (flight s)) (outSeq s);
+  wf_cmt : forall b, In b (flight s) -> committing b = true -> bseq b = lo_seq s;
+  wf_evs : forall b, In b (flight s) -> nth_error (rev (sealed_hist s)) (Z.to_nat (bseq b)) = Some (bevs b);
+  wf_queue : forall q, In q (queue s) -> exists b, find_bat (flight s) q = Some b /\ bstage b = Queued;
+  wf_count : free s + Z.of_nat (length (flight s)) + cur_count s = workers c
+}.
+
+Lemma wf_init c : WF c (init c).
+Proof. constructor; cbn; try lia; try reflexivity; intros; contradiction. Qed.
+
+(* a step that leaves the in-flight list, the channel and the counters alone *)
+Lemma wf_same c s s' :
+  WF c s -> flight s' = flight s -> queue s' = queue s -> sealed_hist s' = sealed_hist s ->
+  outSeq s' = outSeq s -> commitSeq s' = commitSeq s -> free s' + cur_count s' = free s + cur_count s ->
+  WF c s'.
+Proof.
+  intros [] Hf Hq Hs Ho Hc Hn. unfold lo_seq in *.
+  constructor; unfold lo_seq; rewrite ?Hf, ?Hq, ?Hs, ?Ho, ?Hc; try assumption. lia.
+Qed.
+
+(* a step that rewrites one in-flight batch in place *)
+Lemma wf_upd c s s' q f b0 :
+  WF c s -> find_bat (flight s) q = Some b0 ->
+  flight s' = upd_bat (flight s) q f -> sealed_hist s' = sealed_hist s -> outSeq s' = outSeq s ->
+  free s' = free s -> cur s' = cur s ->
+  bseq (f b0) = q -> bevs (f b0) = bevs b0 ->
+  lo_seq s' = lo_seq s -> (committing (f b0) = true -> q = lo_seq s) ->
+  (forall q', In q' (queue s') -> (q' <> q /\ In q' (queue s)) \/ (q' = q /\ bstage (f b0) = Queued)) ->
+  WF c s'.
+Proof.
+  intros [] Hfind Hf Hs Ho Hfr Hcu Hseq Hevs Hlo Hcm Hq.
+  constructor; rewrite ?Hlo, ?Hf, ?Hs, ?Ho; try assumption.
+  - rewrite (map_bseq_upd _ _ _ _ Hfind Hseq). assumption.
+  - intros b Hb Hc. in_upd Hb; [auto|]. rewrite Hfind in Hf0. inversion Hf0; subst b1. rewrite Hseq. auto.
+  - intros b Hb. in_upd Hb; [auto|]. rewrite Hfind in Hf0. inversion Hf0; subst b1. rewrite Hseq, Hevs.
+    destruct (find_bat_In _ _ _ Hfind) as [Hin <-]. auto.
+  - intros q' Hq'. destruct (Hq _ Hq') as [[Hne Hin]|[-> Hst]].
+    + rewrite (find_bat_upd_other _ _ _ _ _ Hne Hfind Hseq). auto.
+    + exists (f b0). split; [exact (find_bat_upd_same _ _ _ _ Hfind Hseq)|exact Hst].
+  - rewrite length_upd_bat. unfold cur_count in *. rewrite Hfr, Hcu. assumption.
+Qed.
+
+Lemma wf_upd_plain c s s' q f b0 :
+  WF c s -> find_bat (flight s) q = Some b0 -> bstage b0 <> Queued ->
+  flight s' = upd_bat (flight s) q f -> queue s' = queue s -> sealed_hist s' = sealed_hist s ->
+  outSeq s' = outSeq s -> commitSeq s' = commitSeq s -> free s' = free s -> cur s' = cur s ->
+  bseq (f b0) = q -> bevs (f b0) = bevs b0 -> committing (f b0) = committing b0 ->
+  WF c s'.
+Proof.
+  intros Hwf Hfind Hst Hf Hq Hs Ho Hc Hfr Hcu Hseq Hevs Hcm.
+  apply (wf_upd c s s' q f b0 Hwf Hfind Hf Hs Ho Hfr Hcu Hseq Hevs).
+  - unfold lo_seq. rewrite Hf, Hc, (existsb_committing_upd _ _ _ _ Hfind Hcm). reflexivity.
+  - rewrite Hcm. intros Hc1. destruct (find_bat_In _ _ _ Hfind) as [Hin <-]. exact (wf_cmt _ _ Hwf _ Hin Hc1).
+  - rewrite Hq. intros q' Hq'. left. split; [|exact Hq'].
+    intros ->. destruct (wf_queue _ _ Hwf _ Hq') as (b & Hb & Hbs). congruence.
+Qed.
+
+Ltac wf_plain Hwf :=
+  match goal with
+  | Hf : find_bat (flight ?s) ?q = Some ?b0, Hst : bstage ?b0 = _ |- WF _ ?s' =>
+      match s' with context [upd_bat (flight s) q ?f] =>
+        let Hseq := fresh in
+        destruct (find_bat_In _ _ _ Hf) as [_ Hseq];
+        apply (wf_upd_plain _ s s' q f b0 Hwf Hf);
+        [ rewrite Hst; discriminate | reflexivity .. | exact Hseq | reflexivity
+        | unfold committing; cbn [bstage set_stage]; rewrite Hst; reflexivity ]
+      end
+  end.
+
+Ltac cur_count_tac :=
+  unfold cur_count; proj_simpl; repeat match goal with H : cur _ = _ |- _ => rewrite H end; lia.
+
+Lemma existsb_app_committing fl x : committing x = false -> existsb committing (fl ++ [x]) = existsb committing fl.
+Proof. intros H. rewrite existsb_app. cbn [existsb]. rewrite H. rewrite !orb_false_r. reflexivity. Qed.
+
+Lemma wf_step c s l s' : WF c s -> step c s l = Some s' -> WF c s'.
+Proof.
+  intros Hwf H.
+  destruct l; step_inv H;
+    try solve [ exact Hwf
+              | apply (wf_same c s); [exact Hwf|reflexivity..|cur_count_tac]
+              | wf_plain Hwf ].
+  - (* Seal *)
+    destruct Hwf as [L1 L2 L3 L4 L5 L6 L7]. unfold lo_seq in *.
+    constructor; unfold lo_seq; proj_simpl; rewrite ?existsb_app_committing by reflexivity.
+    + exact L1.
+    + cbn [length]. lia.
+    + rewrite map_app. cbn [map bseq]. subst seq. apply consec_app. exact L3.
+    + intros b Hb Hc. apply in_app_or in Hb. destruct Hb as [Hb|[<-|[]]]; [auto|discriminate Hc].
+    + intros b Hb. cbn [rev]. apply in_app_or in Hb. destruct Hb as [Hb|[<-|[]]].
+      * rewrite nth_error_app1; [auto|]. apply nth_error_Some. rewrite (L5 _ Hb). discriminate.
+      * cbn [bseq bevs]. rewrite nth_error_app2 by (rewrite rev_length; lia). rewrite rev_length.
+        replace (Z.to_nat seq - length (sealed_hist s))%nat with O by lia. reflexivity.
+    + intros q Hq. destruct (L6 _ Hq) as (b & Hb & Hs). exists b. split; [apply find_bat_app; exact Hb|exact Hs].
+    + rewrite app_length. cbn [length]. unfold cur_count in *. rewrite Heqo in L7. cbn [cur]. lia.
+  - (* Push *)
+    match goal with Hf : find_bat _ _ = Some ?b0, Hst : bstage ?b0 = Pending |- _ =>
+      destruct (find_bat_In _ _ _ Hf) as [Hin Hseq];
+      apply (wf_upd c s _ seq (set_stage Queued) b0 Hwf Hf); try reflexivity; try exact Hseq;
+      [ unfold lo_seq; proj_simpl; rewrite (existsb_committing_upd _ _ _ _ Hf); [reflexivity|];
+        unfold committing; cbn [bstage set_stage]; rewrite Hst; reflexivity
+      | discriminate
+      | proj_simpl; intros q' Hq'; apply in_app_or in Hq'; destruct Hq' as [Hq'|[<-|[]]]; [left|right; split; reflexivity];
+        split; [|exact Hq']; intros ->; destruct (wf_queue _ _ Hwf _ Hq') as (b1 & Hb1 & Hbs); congruence ]
+    end.
+  - (* Take *)
+    match goal with Hx : existsb (Z.eqb seq) (queue s) = true |- _ =>
+      apply existsb_exists in Hx; destruct Hx as (q0 & Hq0 & Heq0); apply Z.eqb_eq in Heq0; subst q0;
+      destruct (wf_queue _ _ Hwf _ Hq0) as (b0 & Hf & Hst) end.
+    destruct (find_bat_In _ _ _ Hf) as [Hin Hseq].
+    apply (wf_upd c s _ seq (set_stage Taken) b0 Hwf Hf); try reflexivity; try exact Hseq.
+    + unfold lo_seq; proj_simpl. rewrite (existsb_committing_upd _ _ _ _ Hf); [reflexivity|].
+      unfold committing; cbn [bstage set_stage]; rewrite Hst; reflexivity.
+    + discriminate.
+    + proj_simpl. intros q' Hq'. apply filter_In in Hq'. destruct Hq' as [Hq' Hne]. left. split; [lia|exact Hq'].
+  - (* CommitBegin *)
+    match goal with Hf : find_bat _ _ = Some ?b0, Hn : committing_bat _ = None |- _ =>
+      destruct (find_bat_In _ _ _ Hf) as [Hin Hseq]; pose proof (committing_bat_None _ Hn) as Hex;
+      apply (wf_upd c s _ seq (set_stage (Committing 0)) b0 Hwf Hf); try reflexivity; try exact Hseq;
+      [ unfold lo_seq; proj_simpl; rewrite (existsb_committing_upd_true _ _ _ _ Hf) by reflexivity; rewrite Hex; lia
+      | intros _; unfold lo_seq; rewrite Hex; lia
+      | proj_simpl; intros q' Hq'; left; split; [|exact Hq']; intros ->;
+        destruct (wf_queue _ _ Hwf _ Hq') as (b1 & Hb1 & Hbs); rewrite Hf in Hb1; inversion Hb1; subst b1;
+        rewrite Hbs in *; discriminate ]
+    end.
+  - (* CommitEv *)
+    destruct (committing_bat_Some _ _ Heqo) as [Hin Hcm].
+    pose proof (find_bat_of_In _ _ _ _ (wf_consec _ _ Hwf) Hin) as Hf.
+    apply (wf_upd_plain c s _ (bseq b) (set_stage (Committing (S done))) b Hwf Hf); try reflexivity;
+      match goal with Hst : bstage b = Committing _ |- _ =>
+        first [ rewrite Hst; discriminate | unfold committing; cbn [bstage set_stage]; rewrite Hst; reflexivity ] end.
+  - (* CommitEnd *)
+    match goal with Hf : find_bat _ _ = Some ?b0, Hst : bstage ?b0 = Committing _ |- _ =>
+      destruct (find_bat_In _ _ _ Hf) as [Hin Hseq];
+      assert (Hcm : committing b0 = true) by (unfold committing; rewrite Hst; reflexivity);
+      pose proof (wf_cmt _ _ Hwf _ Hin Hcm) as Hlo;
+      pose proof (existsb_committing_true _ _ Hin Hcm) as Hex
+    end.
+    assert (Hlo2 : lo_seq s = commitSeq s - 1) by (unfold lo_seq; rewrite Hex; reflexivity).
+    destruct Hwf as [L1 L2 L3 L4 L5 L6 L7].
+    destruct (flight s) as [|x r] eqn:Efl; [destruct Hin|].
+    cbn [map consec] in L3. destruct L3 as [Hx L3].
+    assert (Hxb : x = b).
+    { cbn [find_bat] in Heqo. rewrite Hx, <- Hlo, Hseq, Z.eqb_refl in Heqo. congruence. }
+    subst x.
+    assert (Hr : forall b', In b' r -> committing b' = false).
+    { intros b' Hb'. destruct (committing b') eqn:E; [|reflexivity].
+      pose proof (L4 _ (or_intror Hb') E) as E1.
+      pose proof (proj2 (consec_bounds _ _ _ L3) _ (in_map bseq _ _ Hb')). lia. }
+    assert (Hexr : existsb committing r = false).
+    { destruct (existsb committing r) eqn:E; [|reflexivity]. apply existsb_exists in E.
+      destruct E as (b' & Hb' & E). rewrite (Hr _ Hb') in E. discriminate. }
+    assert (Hdel : del_bat (b :: r) seq = r) by (cbn [del_bat]; rewrite Hseq, Z.eqb_refl; reflexivity).
+    constructor; unfold lo_seq; proj_simpl; rewrite ?Hdel, ?Hexr.
+    + lia.
+    + exact L2.
+    + replace (commitSeq s - 0) with (lo_seq s + 1) by lia. exact L3.
+    + intros b' Hb' E. rewrite (Hr _ Hb') in E. discriminate.
+    + intros b' Hb'. apply L5. right. exact Hb'.
+    + intros q Hq. destruct (L6 _ Hq) as (b1 & Hb1 & Hs1). exists b1. split; [|exact Hs1].
+      cbn [find_bat] in Hb1. destruct (bseq b =? q); [|exact Hb1]. inversion Hb1; subst b1. congruence.
+    + cbn [length] in L7. unfold cur_count in *. proj_simpl. lia.
+Qed.
+
+Lemma wf_reach c ls s : run c (init c) ls = Some s -> WF c s.
+Proof. intros Hr. exact (run_invariant c (WF c) (wf_step c) ls _ _ (wf_init c) Hr). Qed.
+
+(* invariants proved on top of the structural one *)
+Lemma run_invariant_wf (c : cfg) (P : st -> Prop) :
+  (forall s l s', WF c s -> P s -> step c s l = Some s' -> P s') -> P (init c) ->
+  forall ls s, run c (init c) ls = Some s -> P s.
+Proof.
+  intros Hstep Hi ls s Hr.
+  refine (proj2 (run_invariant c (fun s => WF c s /\ P s) _ ls _ _ (conj (wf_init c) Hi) Hr)).
+  intros s0 l s1 [Hw Hp] Hs. split; [exact (wf_step _ _ _ _ Hw Hs)|exact (Hstep _ _ _ Hw Hp Hs)].
+Qed.
+
+(* ------------------------------------------------------------------------------------------- *)
+(* 6. the batches in flight are the interval [lo_seq, outSeq)                                    *)
+
+Lemma In_zrange n : forall lo x, lo <= x < lo + Z.of_nat n -> In x (zrange lo n).
+Proof.
+  induction n as [|n IH]; intros lo x Hx; [lia|]. cbn [zrange].
+  destruct (Z.eq_dec x lo) as [->|Hne]; [left; reflexivity|right; apply IH; lia].
+Qed.
+
+Lemma lo_seq_cases s :
+  (committing_bat (flight s) = None /\ lo_seq s = commitSeq s) \/
+  (exists b, committing_bat (flight s) = Some b /\ lo_seq s = commitSeq s - 1).
+Proof.
+  unfold lo_seq. destruct (committing_bat (flight s)) as [b|] eqn:E.
+  - right. exists b. split; [reflexivity|]. destruct (committing_bat_Some _ _ E) as [Hin Hc].
+    rewrite (existsb_committing_true _ _ Hin Hc). reflexivity.
+  - left. rewrite (committing_bat_None _ E). split; [reflexivity|lia].
+Qed.
+
+Lemma in_flight_is_interval c ls s :
+  run c (init c) ls = Some s ->
+  0 <= lo_seq s <= outSeq s /\
+  map bseq (flight s) = zrange (lo_seq s) (Z.to_nat (outSeq s - lo_seq s)) /\
+  NoDup (map bseq (flight s)) /\
+  free s + Z.of_nat (length (flight s)) + cur_count s = workers c.
+Proof.
+  intros Hr. pose proof (wf_reach _ _ _ Hr) as Hwf. destruct Hwf as [L1 L2 L3 L4 L5 L6 L7].
+  pose proof (consec_zrange _ _ _ L3) as Hz.
+  split; [split; [exact L1|exact (proj1 (consec_bounds _ _ _ L3))]|].
+  split; [exact Hz|]. split; [rewrite Hz; apply zrange_NoDup|exact L7].
+Qed.
+
+Lemma no_commit_deadlock c ls s :
+  run c (init c) ls = Some s -> commitSeq s < outSeq s ->
+  exists b, find_bat (flight s) (commitSeq s) = Some b /\ In b (flight s) /\ committing b = false.
+Proof.
+  intros Hr Hlt. pose proof (wf_reach _ _ _ Hr) as Hwf.
+  pose proof (consec_zrange _ _ _ (wf_consec _ _ Hwf)) as Hz.
+  pose proof (consec_bounds _ _ _ (wf_consec _ _ Hwf)) as [Hb _].
+  assert (Hlo : lo_seq s = commitSeq s \/ lo_seq s = commitSeq s - 1).
+  { destruct (lo_seq_cases s) as [[_ H]|(b & _ & H)]; [left|right]; exact H. }
+  assert (Hin : In (commitSeq s) (map bseq (flight s))).
+  { rewrite Hz. apply In_zrange. lia. }
+  apply in_map_iff in Hin. destruct Hin as (b & Hseq & Hin). exists b.
+  pose proof (find_bat_of_In _ _ _ _ (wf_consec _ _ Hwf) Hin) as Hf. rewrite Hseq in Hf.
+  split; [exact Hf|split; [exact Hin|]].
+  destruct (committing b) eqn:E; [|reflexivity]. pose proof (wf_cmt _ _ Hwf _ Hin E) as E1.
+  unfold lo_seq in *. rewrite (existsb_committing_true _ _ Hin E) in *. lia.
+Qed.
+
+(* ------------------------------------------------------------------------------------------- *)
+(* 3. a batch enters its commit section only after its own OutFn returned                        *)
+
+Definition inv_sent (s : st) : Prop :=
+  (forall b, In b (flight s) -> bstage b = Sent \/ (committing b = true /\ has_iter (bevs b) = true) ->
+             In (bseq b) (sent_hist s)) /\
+  (forall q, In q (commit_batches s) ->
+             exists evs, nth_error (rev (sealed_hist s)) (Z.to_nat q) = Some evs /\
+                         (has_iter evs = true -> In q (sent_hist s))).
+
+Lemma nth_error_snoc_Some {A} (l : list A) x n y : nth_error l n = Some y -> nth_error (l ++ [x]) n = Some y.
+Proof. intros H. rewrite nth_error_app1; [exact H|]. apply nth_error_Some. rewrite H. discriminate. Qed.
+
+Ltac stage_contra Hp :=
+  exfalso; unfold committing in Hp; cbn [bstage set_stage] in Hp; destruct Hp as [Hp|[Hp _]]; discriminate Hp.
+
+Lemma inv_sent_step c s l s' : WF c s -> inv_sent s -> step c s l = Some s' -> inv_sent s'.
+Proof.
+  intros Hwf [I1 I2] H. unfold inv_sent.
+  destruct l; step_inv H; try (split; assumption);
+    try solve [split; [intros x Hx Hp; in_upd Hx; [exact (I1 _ Hx Hp)|stage_contra Hp] | exact I2]].
+  - (* Seal *) split.
+    + intros x Hx Hp. apply in_app_or in Hx. destruct Hx as [Hx|[<-|[]]]; [exact (I1 _ Hx Hp)|stage_contra Hp].
+    + intros q Hq. destruct (I2 _ Hq) as (evs & He & Hs). exists evs. split; [|exact Hs].
+      cbn [rev]. apply nth_error_snoc_Some. exact He.
+  - (* OutEnd *) split.
+    + intros x Hx Hp. in_upd Hx; [right; exact (I1 _ Hx Hp)|].
+      left. rewrite bseq_set_stage. symmetry; exact (proj2 (find_bat_In _ _ _ Hf)).
+    + intros q Hq. destruct (I2 _ Hq) as (evs & He & Hs). exists evs. split; [exact He|]. intros Hi. right. auto.
+  - (* CommitBegin *)
+    destruct (find_bat_In _ _ _ Heqo) as [Hin Hseq]. split.
+    + intros x Hx Hp. in_upd Hx; [exact (I1 _ Hx Hp)|]. rewrite Heqo in Hf. inversion Hf; subst b0.
+      rewrite bseq_set_stage. destruct (bstage b) eqn:Est; try discriminate H.
+      * (* Taken without iterable events *) exfalso. destruct Hp as [Hp|[_ Hp]]; [discriminate Hp|].
+        rewrite bevs_set_stage in Hp. rewrite Hp in H. discriminate H.
+      * apply I1; [exact Hin|left; exact Est].
+    + intros q [<-|Hq]; [|exact (I2 _ Hq)]. exists (bevs b). rewrite <- Hseq. split; [exact (wf_evs _ _ Hwf _ Hin)|].
+      intros Hi. destruct (bstage b) eqn:Est; try discriminate H.
+      * rewrite Hi in H. discriminate H.
+      * apply I1; [exact Hin|left; exact Est].
+  - (* CommitEv *)
+    destruct (committing_bat_Some _ _ Heqo) as [Hin Hcm]. split; [|exact I2].
+    intros x Hx Hp. in_upd Hx; [exact (I1 _ Hx Hp)|].
+    pose proof (find_bat_of_In _ _ _ _ (wf_consec _ _ Hwf) Hin) as Hf1. rewrite Hf1 in Hf. inversion Hf; subst b0.
+    rewrite bseq_set_stage. apply I1; [exact Hin|]. right. split; [exact Hcm|].
+    destruct Hp as [Hp|[_ Hp]]; [discriminate Hp|exact Hp].
+  - (* CommitEnd *) split; [|exact I2]. intros x Hx Hp. apply In_del_bat in Hx. exact (I1 _ Hx Hp).
+Qed.
+
+Lemma inv_sent_init c : inv_sent (init c).
+Proof. split; cbn; intros; contradiction. Qed.
+
+Lemma commit_after_own_send c ls s :
+  run c (init c) ls = Some s ->
+  forall q evs, In q (commit_batches s) -> nth_error (rev (sealed_hist s)) (Z.to_nat q) = Some evs ->
+                has_iter evs = true -> In q (sent_hist s).
+Proof.
+  intros Hr q evs Hq He Hi.
+  destruct (run_invariant_wf c inv_sent (inv_sent_step c) (inv_sent_init c) ls s Hr) as [_ I2].
+  destruct (I2 _ Hq) as (evs' & He' & Hs). rewrite He in He'. inversion He'; subst evs'. exact (Hs Hi).
+Qed.
+
+(* every batch that entered its commit section is a sealed one *)
+Lemma commit_batches_sealed c ls s :
+  run c (init c) ls = Some s ->
+  forall q, In q (commit_batches s) -> exists evs, nth_error (rev (sealed_hist s)) (Z.to_nat q) = Some evs.
+Proof.
+  intros Hr q Hq.
+  destruct (run_invariant_wf c inv_sent (inv_sent_step c) (inv_sent_init c) ls s Hr) as [_ I2].
+  destruct (I2 _ Hq) as (evs' & He' & _). exists evs'. exact He'.
+Qed.
+
+(* ------------------------------------------------------------------------------------------- *)
+(* C09 A. give-up only after retry+2 failed calls                                                *)
+
+Definition fseq (f : Z * Z * bool * list ev) : Z := fst (fst (fst f)).
+
+Definition res_upto (s : st) (q t : Z) : Prop := forall k, 0 <= k < t -> In (q, k, false) (result_hist s).
+
+Definition retry_stage_ok (s : st) (b : bat) : Prop :=
+  match bstage b with
+  | Sending t PIdle => t = 0
+  | Sending t PCalling => 0 <= t /\ res_upto s (bseq b) t
+  | Sending t PFailed => 0 <= t /\ res_upto s (bseq b) (t + 1)
+  | _ => True
+  end.
+
+Definition inv_retry (c : cfg) (s : st) : Prop :=
+  (forall b, In b (flight s) -> retry_stage_ok s b) /\
+  (forall q t evs, In (q, t, false, evs) (failed_hist s) -> 0 <= retry c /\ retry c < t /\ res_upto s q (t + 1)).
+
+Lemma inv_retry_step c s l s' : inv_retry c s -> step c s l = Some s' -> inv_retry c s'.
+Proof.
+  intros [J1 J2] H. unfold inv_retry.
+  destruct l; step_inv H; try (split; assumption);
+    try solve [split; [intros x Hx; in_upd Hx; [exact (J1 _ Hx)|exact I] | exact J2]].
+  - (* Seal *) split; [|exact J2]. intros x Hx. apply in_app_or in Hx. destruct Hx as [Hx|[<-|[]]]; [exact (J1 _ Hx)|exact I].
+  - (* OutBegin *) split; [|exact J2]. intros x Hx. in_upd Hx; [exact (J1 _ Hx)|reflexivity].
+  - (* CommitEnd *) split; [|exact J2]. intros x Hx. apply In_del_bat in Hx. exact (J1 _ Hx).
+  - (* RetryCall from PIdle *) split; [|exact J2]. intros x Hx. in_upd Hx; [exact (J1 _ Hx)|].
+    destruct (find_bat_In _ _ _ Heqo) as [Hin _]. pose proof (J1 _ Hin) as Hb. unfold retry_stage_ok in Hb. rewrite Heqs0 in Hb.
+    unfold retry_stage_ok. cbn [bstage set_stage]. subst. split; [lia|intros k Hk; lia].
+  - (* RetryCall from PFailed *) split; [|exact J2]. intros x Hx. in_upd Hx; [exact (J1 _ Hx)|].
+    destruct (find_bat_In _ _ _ Heqo) as [Hin _]. pose proof (J1 _ Hin) as Hb. unfold retry_stage_ok in Hb. rewrite Heqs0 in Hb.
+    rewrite Hf in Heqo. inversion Heqo; subst b0.
+    unfold retry_stage_ok. cbn [bstage set_stage bseq]. subst. destruct Hb as [Hb1 Hb2]. split; [lia|exact Hb2].
+  - (* RetryResult *)
+    assert (Hmono : forall q t, res_upto s q t ->
+              forall k, 0 <= k < t -> In (q, k, false) ((seq, tries0, ok) :: result_hist s)).
+    { intros q t Hr k Hk. right. exact (Hr _ Hk). }
+    split.
+    + intros x Hx. in_upd Hx.
+      * pose proof (J1 _ Hx) as Hb. unfold retry_stage_ok, res_upto in *. cbn [result_hist].
+        destruct (bstage x) as [| | |t ph| |]; try exact I. destruct ph; try exact Hb.
+        -- destruct Hb as [Hb1 Hb2]. split; [exact Hb1|exact (Hmono _ _ Hb2)].
+        -- destruct Hb as [Hb1 Hb2]. split; [exact Hb1|exact (Hmono _ _ Hb2)].
+      * rewrite Hf in Heqo. inversion Heqo; subst b0.
+        destruct (find_bat_In _ _ _ Hf) as [Hin Hseq]. pose proof (J1 _ Hin) as Hb. unfold retry_stage_ok in Hb. rewrite Heqs0 in Hb.
+        unfold retry_stage_ok, res_upto. cbn [bstage set_stage bseq result_hist]. destruct ok; [exact I|].
+        destruct Hb as [Hb1 Hb2]. split; [exact Hb1|]. intros k Hk.
+        destruct (Z.eq_dec k tries0) as [->|Hne]; [left; rewrite Hseq; reflexivity|right; apply Hb2; lia].
+    + intros q t evs Hq. destruct (J2 _ _ _ Hq) as (R1 & R2 & R3). split; [exact R1|split; [exact R2|exact (Hmono _ _ R3)]].
+  - (* RetryGiveUp *)
+    destruct (find_bat_In _ _ _ Heqo) as [Hin Hseq]. pose proof (J1 _ Hin) as Hb. unfold retry_stage_ok in Hb. rewrite Heqs0 in Hb.
+    split.
+    + intros x Hx. in_upd Hx; [exact (J1 _ Hx)|exact I].
+    + intros q t evs [Hq|Hq]; [|exact (J2 _ _ _ Hq)]. inversion Hq; subst.
+      match goal with Hg : false || _ = true |- _ => rewrite orb_false_l in Hg end. bnorm.
+      split; [assumption|split; [assumption|exact (proj2 Hb)]].
+Qed.
+
+Lemma inv_retry_init c : inv_retry c (init c).
+Proof. split; cbn; intros; contradiction. Qed.
+
+Lemma retries_at_least c ls s :
+  run c (init c) ls = Some s ->
+  forall q t evs, In (q, t, false, evs) (failed_hist s) ->
+    0 <= retry c /\ retry c < t /\ forall k, 0 <= k <= t -> In (q, k, false) (result_hist s).
+Proof.
+  intros Hr q t evs Hq.
+  destruct (run_invariant c (inv_retry c) (inv_retry_step c) ls _ _ (inv_retry_init c) Hr) as [_ J2].
+  destruct (J2 _ _ _ Hq) as (R1 & R2 & R3). split; [exact R1|split; [exact R2|]]. intros k Hk. apply R3. lia.
+Qed.
+
+(* ------------------------------------------------------------------------------------------- *)
+(* C09 C. a batch is given up at most once                                                       *)
+
+Lemma In_upd_bat_strong lo fl hi q f b0 x :
+  consec lo (map bseq fl) hi -> find_bat fl q = Some b0 -> In x (upd_bat fl q f) ->
+  (In x fl /\ bseq x <> q) \/ x = f b0.
+Proof.
+  revert lo. induction fl as [|y r IH]; [discriminate|]. cbn [map consec find_bat upd_bat]. intros lo [Hy Hc] Hf.
+  destruct (bseq y =? q) eqn:E; bnorm; cbn [In].
+  - inversion Hf; subst y. intros [<-|Hx]; [right; reflexivity|left].
+    split; [right; exact Hx|]. pose proof (proj2 (consec_bounds _ _ _ Hc) _ (in_map bseq _ _ Hx)). lia.
+  - intros [<-|Hx]; [left; split; [left; reflexivity|exact E]|].
+    destruct (IH _ Hc Hf Hx) as [[H1 H2]|H1]; [left; split; [right; exact H1|exact H2]|right; exact H1].
+Qed.
+
+Definition done_stage (b : bat) : Prop :=
+  match bstage b with Sending _ PDone | Sent | Committing _ => True | _ => False end.
+
+Definition inv_once (s : st) : Prop :=
+  NoDup (map fseq (failed_hist s)) /\
+  (forall q, In q (map fseq (failed_hist s)) -> q < outSeq s) /\
+  (forall b, In b (flight s) -> In (bseq b) (map fseq (failed_hist s)) -> done_stage b).
+
+Lemma inv_once_step c s l s' : WF c s -> inv_once s -> step c s l = Some s' -> inv_once s'.
+Proof.
+  intros Hwf (K1 & K2 & K3) H. unfold inv_once.
+  destruct l; step_inv H; try (split; [assumption|split; assumption]);
+    try solve [ split; [exact K1|split; [exact K2|]]; intros x Hx Hq; in_upd Hx; [exact (K3 _ Hx Hq)|];
+                match goal with Hf1 : find_bat _ _ = Some ?b1, Hf2 : find_bat _ _ = Some ?b2 |- _ =>
+                  rewrite Hf1 in Hf2; inversion Hf2; subst end;
+                rewrite ?bseq_set_stage in Hq;
+                match goal with Hf1 : find_bat _ _ = Some ?b1, Hst : bstage ?b1 = _ |- _ =>
+                  pose proof (K3 _ (proj1 (find_bat_In _ _ _ Hf1)) Hq) as Hd; unfold done_stage in *;
+                  cbn [bstage set_stage]; rewrite Hst in Hd; first [exact I|contradiction] end ].
+  - (* Seal *) split; [exact K1|split].
+    + intros q Hq. specialize (K2 _ Hq). lia.
+    + intros x Hx Hq. apply in_app_or in Hx. destruct Hx as [Hx|[<-|[]]]; [exact (K3 _ Hx Hq)|].
+      cbn [bseq] in Hq. specialize (K2 _ Hq). lia.
+  - (* Take *) split; [exact K1|split; [exact K2|]]. intros x Hx Hq. in_upd Hx; [exact (K3 _ Hx Hq)|].
+    exfalso. rewrite bseq_set_stage in Hq.
+    match goal with Hx : existsb (Z.eqb seq) (queue s) = true |- _ =>
+      apply existsb_exists in Hx; destruct Hx as (q0 & Hq0 & Heq0) end. apply Z.eqb_eq in Heq0. subst q0.
+    destruct (wf_queue _ _ Hwf _ Hq0) as (b1 & Hf1 & Hst). rewrite Hf in Hf1. inversion Hf1; subst b1.
+    pose proof (K3 _ (proj1 (find_bat_In _ _ _ Hf)) Hq) as Hd. unfold done_stage in Hd. rewrite Hst in Hd. exact Hd.
+  - (* CommitBegin *) split; [exact K1|split; [exact K2|]]. intros x Hx Hq. in_upd Hx; [exact (K3 _ Hx Hq)|exact I].
+  - (* CommitEv *) split; [exact K1|split; [exact K2|]]. intros x Hx Hq. in_upd Hx; [exact (K3 _ Hx Hq)|exact I].
+  - (* CommitEnd *) split; [exact K1|split; [exact K2|]]. intros x Hx Hq. apply In_del_bat in Hx. exact (K3 _ Hx Hq).
+  - (* RetryGiveUp *)
+    destruct (find_bat_In _ _ _ Heqo) as [Hin Hseq]. cbn [map fseq fst].
+    assert (Hnew : ~ In seq (map fseq (failed_hist s))).
+    { intros Hq. rewrite <- Hseq in Hq. pose proof (K3 _ Hin Hq) as Hd. unfold done_stage in Hd. rewrite Heqs0 in Hd. exact Hd. }
+    split; [constructor; assumption|split].
+    + intros q [<-|Hq]; [|exact (K2 _ Hq)].
+      pose proof (proj2 (consec_bounds _ _ _ (wf_consec _ _ Hwf)) _ (in_map bseq _ _ Hin)). lia.
+    + intros x Hx Hq. destruct (In_upd_bat_strong _ _ _ _ _ _ _ (wf_consec _ _ Hwf) Heqo Hx) as [[Hx1 Hne]| ->]; [|exact I].
+      destruct Hq as [Hq|Hq]; [congruence|exact (K3 _ Hx1 Hq)].
+Qed.
+
+Lemma inv_once_init c : inv_once (init c).
+Proof. split; [constructor|split]; cbn; intros; contradiction. Qed.
+
+Lemma giveup_once c ls s : run c (init c) ls = Some s -> NoDup (map fseq (failed_hist s)).
+Proof. intros Hr. exact (proj1 (run_invariant_wf c inv_once (inv_once_step c) (inv_once_init c) ls s Hr)). Qed.
+
+(* ------------------------------------------------------------------------------------------- *)
+(* C09 B. no commit section while a retry is pending                                             *)
+
+Definition settled (s : st) (q : Z) : Prop :=
+  (exists t, In (q, t, true) (result_hist s)) \/ In q (map fseq (failed_hist s)).
+
+Definition done_prem (b : bat) : Prop :=
+  match bstage b with
+  | Sending _ PDone | Sent => True
+  | Committing _ => has_iter (bevs b) = true
+  | _ => False
+  end.
+
+Definition inv_settled (s : st) : Prop :=
+  (forall b, In b (flight s) -> done_prem b -> settled s (bseq b)) /\
+  (forall q, In q (commit_batches s) ->
+             exists evs, nth_error (rev (sealed_hist s)) (Z.to_nat q) = Some evs /\
+                         (has_iter evs = true -> settled s q)).
+
+Lemma inv_settled_step c s l s' :
+  retriable c = true -> WF c s -> inv_settled s -> step c s l = Some s' -> inv_settled s'.
+Proof.
+  intros Hret Hwf [I1 I2] H. unfold inv_settled, settled in *.
+  destruct l; step_inv H; try (split; assumption);
+    try solve [split; [intros x Hx Hp; in_upd Hx; [exact (I1 _ Hx Hp)|exfalso; exact Hp] | exact I2]].
+  - (* Seal *) split.
+    + intros x Hx Hp. apply in_app_or in Hx. destruct Hx as [Hx|[<-|[]]]; [exact (I1 _ Hx Hp)|exfalso; exact Hp].
+    + intros q Hq. destruct (I2 _ Hq) as (evs & He & Hs). exists evs. split; [|exact Hs].
+      cbn [rev]. apply nth_error_snoc_Some. exact He.
+  - (* OutEnd *) split; [|exact I2]. intros x Hx Hp. in_upd Hx; [exact (I1 _ Hx Hp)|].
+    rewrite Hf in Heqo. inversion Heqo; subst b0. rewrite bseq_set_stage.
+    apply I1; [exact (proj1 (find_bat_In _ _ _ Hf))|]. unfold done_prem. rewrite Heqs0.
+    rewrite Hret in H. destruct ph; try discriminate H. exact I.
+  - (* CommitBegin *)
+    destruct (find_bat_In _ _ _ Heqo) as [Hin Hseq]. split.
+    + intros x Hx Hp. in_upd Hx; [exact (I1 _ Hx Hp)|]. rewrite Heqo in Hf. inversion Hf; subst b0.
+      rewrite bseq_set_stage. unfold done_prem in Hp. cbn [bstage set_stage bevs] in Hp.
+      apply I1; [exact Hin|]. unfold done_prem. destruct (bstage b) eqn:Est; try discriminate H.
+      * rewrite Hp in H. discriminate H.
+      * exact I.
+    + intros q [<-|Hq]; [|exact (I2 _ Hq)]. exists (bevs b). rewrite <- Hseq. split; [exact (wf_evs _ _ Hwf _ Hin)|].
+      intros Hi. apply I1; [exact Hin|]. unfold done_prem. destruct (bstage b) eqn:Est; try discriminate H.
+      * rewrite Hi in H. discriminate H.
+      * exact I.
+  - (* CommitEv *)
+    destruct (committing_bat_Some _ _ Heqo) as [Hin Hcm]. split; [|exact I2].
+    intros x Hx Hp. in_upd Hx; [exact (I1 _ Hx Hp)|].
+    pose proof (find_bat_of_In _ _ _ _ (wf_consec _ _ Hwf) Hin) as Hf1. rewrite Hf1 in Hf. inversion Hf; subst b0.
+    rewrite bseq_set_stage. apply I1; [exact Hin|]. unfold done_prem in *. rewrite Heqs0. exact Hp.
+  - (* CommitEnd *) split; [|exact I2]. intros x Hx Hp. apply In_del_bat in Hx. exact (I1 _ Hx Hp).
+  - (* RetryResult *)
+    assert (Hmono : forall q, (exists t, In (q, t, true) (result_hist s)) \/ In q (map fseq (failed_hist s)) ->
+                              (exists t, In (q, t, true) ((seq, tries0, ok) :: result_hist s)) \/ In q (map fseq (failed_hist s))).
+    { intros q [[t Ht]|Hq]; [left; exists t; right; exact Ht|right; exact Hq]. }
+    split.
+    + intros x Hx Hp. in_upd Hx; [exact (Hmono _ (I1 _ Hx Hp))|].
+      unfold done_prem in Hp. cbn [bstage set_stage] in Hp. destruct ok; [|exfalso; exact Hp].
+      rewrite bseq_set_stage. left. exists tries0. left. rewrite (proj2 (find_bat_In _ _ _ Hf)). reflexivity.
+    + intros q Hq. destruct (I2 _ Hq) as (evs & He & Hs). exists evs. split; [exact He|]. intros Hi. exact (Hmono _ (Hs Hi)).
+  - (* RetryGiveUp *)
+    cbn [map fseq fst].
+    assert (Hmono : forall q, (exists t, In (q, t, true) (result_hist s)) \/ In q (map fseq (failed_hist s)) ->
+                              (exists t, In (q, t, true) (result_hist s)) \/ (seq = q \/ In q (map fseq (failed_hist s)))).
+    { intros q [Ht|Hq]; [left; exact Ht|right; right; exact Hq]. }
+    split.
+    + intros x Hx Hp. in_upd Hx; [exact (Hmono _ (I1 _ Hx Hp))|].
+      right. left. symmetry. exact (proj2 (find_bat_In _ _ _ Heqo)).
+    + intros q Hq. destruct (I2 _ Hq) as (evs & He & Hs). exists evs. split; [exact He|]. intros Hi. exact (Hmono _ (Hs Hi)).
+Qed.
+
+Lemma inv_settled_init c : inv_settled (init c).
+Proof. split; cbn; intros; contradiction. Qed.
+
+Lemma no_commit_while_retrying c ls s :
+  retriable c = true -> run c (init c) ls = Some s ->
+  forall q evs, In q (commit_batches s) -> nth_error (rev (sealed_hist s)) (Z.to_nat q) = Some evs ->
+                has_iter evs = true ->
+                (exists t, In (q, t, true) (result_hist s)) \/ In q (map fseq (failed_hist s)).
+Proof.
+  intros Hret Hr q evs Hq He Hi.
+  destruct (run_invariant_wf c inv_settled (fun s0 l s1 Hw Hp => inv_settled_step c s0 l s1 Hret Hw Hp)
+              (inv_settled_init c) ls s Hr) as [_ I2].
+  destruct (I2 _ Hq) as (evs' & He' & Hs). rewrite He in He'. inversion He'; subst evs'. exact (Hs Hi).
+Qed.
+
+(* ------------------------------------------------------------------------------------------- *)
+(* 5 / C09 D. what has been committed: whole batches in sequence order, a given-up batch with a  *)
+(* dead queue contributing nothing, plus a prefix of the batch inside its commit section          *)
+
+Definition emptied (c : cfg) (s : st) (q : Z) : bool :=
+  deadq c && existsb (fun f => fseq f =? q) (failed_hist s).
+
+Fixpoint eff_concat (em : Z -> bool) (i : Z) (l : list (list ev)) : list ev :=
+  match l with [] => [] | b :: r => (if em i then [] else b) ++ eff_concat em (i + 1) r end.
+
+Definition part_of (b : bat) : list ev :=
+  match bstage b with Committing k => if bemptied b then [] else firstn k (bevs b) | _ => [] end.
+Definition partial_of (fl : list bat) : list ev := match fl with b :: _ => part_of b | [] => [] end.
+
+Lemma eff_concat_app em l1 : forall i l2,
+  eff_concat em i (l1 ++ l2) = eff_concat em i l1 ++ eff_concat em (i + Z.of_nat (length l1)) l2.
+Proof.
+  induction l1 as [|b r IH]; intros i l2; cbn [eff_concat app length].
+  - replace (i + Z.of_nat 0) with i by lia. reflexivity.
+  - rewrite IH, <- app_assoc. do 3 f_equal. lia.
+Qed.
+
+Lemma eff_concat_ext em em' l : forall i,
+  (forall j, i <= j < i + Z.of_nat (length l) -> em j = em' j) -> eff_concat em i l = eff_concat em' i l.
+Proof.
+  induction l as [|b r IH]; intros i H; cbn [eff_concat]; [reflexivity|].
+  rewrite (H i) by (cbn [length]; lia). f_equal. apply IH. intros j Hj. apply H. cbn [length]. lia.
+Qed.
+
+Lemma eff_concat_false l : forall i, eff_concat (fun _ => false) i l = concat l.
+Proof. induction l as [|b r IH]; intros i; cbn [eff_concat concat]; [reflexivity|]. rewrite IH. reflexivity. Qed.
+
+Lemma firstn_snoc_nth {A} (l : list A) : forall n x, nth_error l n = Some x -> firstn (S n) l = firstn n l ++ [x].
+Proof.
+  induction l as [|y r IH]; intros [|n] x H; cbn [nth_error] in H; try discriminate.
+  - inversion H; subst. reflexivity.
+  - cbn [firstn app]. f_equal. rewrite <- IH by exact H. reflexivity.
+Qed.
+
+Lemma partial_upd fl q f b0 :
+  find_bat fl q = Some b0 -> part_of (f b0) = part_of b0 -> partial_of (upd_bat fl q f) = partial_of fl.
+Proof.
+  destruct fl as [|x r]; [discriminate|]. cbn [find_bat upd_bat]. intros Hf Hp.
+  destruct (bseq x =? q); [|reflexivity]. inversion Hf; subst x. exact Hp.
+Qed.
+
+Lemma partial_app fl x : part_of x = [] -> partial_of (fl ++ [x]) = partial_of fl.
+Proof. intros Hp. destruct fl as [|y r]; [exact Hp|reflexivity]. Qed.
+
+Lemma wf_committing_head c s b : WF c s -> In b (flight s) -> committing b = true -> exists r, flight s = b :: r.
+Proof.
+  intros Hwf Hin Hc. pose proof (wf_cmt _ _ Hwf _ Hin Hc) as Hlo. pose proof (wf_consec _ _ Hwf) as Hcs.
+  destruct (flight s) as [|x r]; [destruct Hin|]. exists r. f_equal.
+  cbn [map consec] in Hcs. destruct Hcs as [Hx Hcs]. destruct Hin as [->|Hin]; [reflexivity|].
+  pose proof (proj2 (consec_bounds _ _ _ Hcs) _ (in_map bseq _ _ Hin)). lia.
+Qed.
+
+Lemma part_of_noncommitting b : committing b = false -> part_of b = [].
+Proof. unfold committing, part_of. destruct (bstage b); [reflexivity..|discriminate]. Qed.
+
+Definition inv_shape (c : cfg) (s : st) : Prop :=
+  (forall b, In b (flight s) -> bemptied b = emptied c s (bseq b)) /\
+  (forall f, In f (failed_hist s) -> fseq f < outSeq s) /\
+  rev (committed s) =
+    eff_concat (emptied c s) 0 (firstn (Z.to_nat (lo_seq s)) (rev (sealed_hist s))) ++ partial_of (flight s).
+
+(* a step that only moves a batch between two stages outside the commit section *)
+Lemma shape_upd_plain c s s' q g b0 :
+  inv_shape c s -> find_bat (flight s) q = Some b0 -> committing b0 = false ->
+  match g with Committing _ => False | _ => True end ->
+  flight s' = upd_bat (flight s) q (set_stage g) -> commitSeq s' = commitSeq s ->
+  sealed_hist s' = sealed_hist s -> outSeq s' = outSeq s -> committed s' = committed s ->
+  failed_hist s' = failed_hist s -> inv_shape c s'.
+Proof.
+  intros (J1 & J2 & J3) Hf Hc Hg Hfl Hcs Hsh Hos Hcm Hfh.
+  assert (Hc' : committing (set_stage g b0) = false) by (unfold committing; cbn [bstage set_stage]; destruct g; tauto).
+  unfold inv_shape, emptied, lo_seq in *. rewrite Hfl, Hcs, Hsh, Hos, Hcm, Hfh.
+  rewrite (existsb_committing_upd _ _ _ _ Hf) by congruence.
+  rewrite (partial_upd _ _ _ _ Hf) by (rewrite !part_of_noncommitting by assumption; reflexivity).
+  split; [|split; assumption].
+  intros x Hx. in_upd Hx; [exact (J1 _ Hx)|]. rewrite Hf in Hf0. inversion Hf0; subst b1.
+  rewrite bemptied_set_stage, bseq_set_stage. exact (J1 _ (proj1 (find_bat_In _ _ _ Hf))).
+Qed.
+
+Ltac shape_plain Hinv :=
+  match goal with
+  | Hf : find_bat (flight ?s) ?q = Some ?b0, Hst : bstage ?b0 = _ |- inv_shape _ ?s' =>
+      match s' with context [upd_bat (flight s) q (set_stage ?g)] =>
+        apply (shape_upd_plain _ s s' q g b0 Hinv Hf);
+        [ unfold committing; rewrite Hst; reflexivity | exact I | reflexivity .. ]
+      end
+  end.
+
+Lemma ev_eqb_eq a b : ev_eqb a b = true -> a = b.
+Proof. destruct a, b. unfold ev_eqb. cbn. intros H. bnorm. subst. reflexivity. Qed.
+
+Lemma wf_tail_noncommitting c s b r : WF c s -> flight s = b :: r -> existsb committing r = false.
+Proof.
+  intros Hwf Hfl. destruct (existsb committing r) eqn:E; [|reflexivity]. exfalso.
+  apply existsb_exists in E. destruct E as (b' & Hb' & E).
+  pose proof (wf_consec _ _ Hwf) as Hcs. pose proof (wf_cmt _ _ Hwf b') as Hcm. rewrite Hfl in *.
+  cbn [map consec] in Hcs. destruct Hcs as [Hx Hcs]. specialize (Hcm (or_intror Hb') E).
+  pose proof (proj2 (consec_bounds _ _ _ Hcs) _ (in_map bseq _ _ Hb')). lia.
+Qed.
+
+Lemma partial_noncommitting fl : existsb committing fl = false -> partial_of fl = [].
+Proof.
+  destruct fl as [|x r]; [reflexivity|]. cbn [existsb partial_of]. intros H. apply orb_false_iff in H.
+  apply part_of_noncommitting. exact (proj1 H).
+Qed.
+
+Lemma inv_shape_step c s l s' : WF c s -> inv_shape c s -> step c s l = Some s' -> inv_shape c s'.
+Proof.
+  intros Hwf Hinv H.
+  destruct l; step_inv H; try exact Hinv; try solve [shape_plain Hinv].
+  - (* Seal *)
+    destruct Hinv as (J1 & J2 & J3). unfold inv_shape, emptied, lo_seq in *. proj_simpl.
+    rewrite existsb_app_committing by reflexivity. rewrite partial_app by reflexivity.
+    pose proof (proj1 (consec_bounds _ _ _ (wf_consec _ _ Hwf))) as Hle. pose proof (wf_lo _ _ Hwf) as Hlo.
+    pose proof (wf_len _ _ Hwf) as Hlen. unfold lo_seq in *.
+    split; [|split].
+    + intros x Hx. apply in_app_or in Hx. destruct Hx as [Hx|[<-|[]]]; [exact (J1 _ Hx)|]. cbn [bemptied bseq].
+      destruct (existsb (fun f => fseq f =? seq) (failed_hist s)) eqn:E; [|rewrite andb_false_r; reflexivity].
+      apply existsb_exists in E. destruct E as (f & Hf & E). apply Z.eqb_eq in E. specialize (J2 _ Hf). lia.
+    + intros f Hf. specialize (J2 _ Hf). lia.
+    + cbn [rev]. rewrite firstn_app.
+      replace (Z.to_nat _ - length (rev (sealed_hist s)))%nat with O by (rewrite rev_length; lia).
+      cbn [firstn]. rewrite app_nil_r. exact J3.
+  - (* Take *)
+    match goal with Hx : existsb (Z.eqb seq) (queue s) = true |- _ =>
+      apply existsb_exists in Hx; destruct Hx as (q0 & Hq0 & Heq0) end. apply Z.eqb_eq in Heq0. subst q0.
+    destruct (wf_queue _ _ Hwf _ Hq0) as (b0 & Hf & Hst).
+    apply (shape_upd_plain c s _ seq Taken b0 Hinv Hf); [unfold committing; rewrite Hst; reflexivity|exact I|reflexivity..].
+  - (* CommitBegin *)
+    destruct Hinv as (J1 & J2 & J3). pose proof (committing_bat_None _ Heqo0) as Hex.
+    assert (Hnc : committing b = false).
+    { destruct (committing b) eqn:E; [|reflexivity]. rewrite (existsb_committing_true _ _ (proj1 (find_bat_In _ _ _ Heqo)) E) in Hex. discriminate. }
+    unfold inv_shape, emptied, lo_seq in *. proj_simpl.
+    rewrite (existsb_committing_upd_true _ _ _ _ Heqo) by reflexivity. rewrite Hex in J3.
+    rewrite (partial_upd _ _ _ _ Heqo).
+    2:{ rewrite (part_of_noncommitting _ Hnc). unfold part_of. cbn [bstage set_stage bemptied]. destruct (bemptied b); reflexivity. }
+    replace (commitSeq s + 1 - 1) with (commitSeq s - 0) by lia.
+    split; [|split; assumption].
+    intros x Hx. in_upd Hx; [exact (J1 _ Hx)|]. rewrite Heqo in Hf. inversion Hf; subst b0.
+    rewrite bemptied_set_stage, bseq_set_stage. exact (J1 _ (proj1 (find_bat_In _ _ _ Heqo))).
+  - (* CommitEv *)
+    destruct Hinv as (J1 & J2 & J3). destruct (committing_bat_Some _ _ Heqo) as [Hin Hcm].
+    destruct (wf_committing_head _ _ _ Hwf Hin Hcm) as [r Hfl].
+    apply ev_eqb_eq in Heqb0. subst e0.
+    destruct (bemptied b) eqn:Eem; [discriminate|].
+    unfold inv_shape, emptied, lo_seq in *. proj_simpl. rewrite Hfl in *.
+    cbn [upd_bat]. rewrite Z.eqb_refl. cbn [existsb partial_of] in *.
+    assert (Hcm' : committing (set_stage (Committing (S done)) b) = true) by reflexivity.
+    rewrite Hcm' , Hcm in *. cbn [orb] in *.
+    split; [|split; [exact J2|]].
+    + intros x [<-|Hx]; [|exact (J1 _ (or_intror Hx))]. rewrite bemptied_set_stage, bseq_set_stage. exact (J1 _ (or_introl eq_refl)).
+    + cbn [rev]. rewrite J3, <- app_assoc. f_equal. unfold part_of. cbn [bstage set_stage bemptied bevs].
+      rewrite Heqs0, Eem. symmetry. apply firstn_snoc_nth. exact Heqo0.
+  - (* CommitEnd *)
+    destruct Hinv as (J1 & J2 & J3). destruct (find_bat_In _ _ _ Heqo) as [Hin Hseq].
+    assert (Hcm : committing b = true) by (unfold committing; rewrite Heqs0; reflexivity).
+    destruct (wf_committing_head _ _ _ Hwf Hin Hcm) as [r Hfl].
+    pose proof (wf_tail_noncommitting _ _ _ _ Hwf Hfl) as Hexr.
+    pose proof (wf_cmt _ _ Hwf _ Hin Hcm) as Hlo. pose proof (wf_lo _ _ Hwf) as Hlo0.
+    pose proof (wf_evs _ _ Hwf _ Hin) as Hevs. pose proof (J1 _ Hin) as Hem.
+    unfold inv_shape, emptied, lo_seq in *. proj_simpl. rewrite Hfl in *.
+    cbn [del_bat]. rewrite Hseq, Z.eqb_refl. cbn [existsb partial_of] in *. rewrite Hcm in *. cbn [orb] in *.
+    rewrite Hexr. rewrite (partial_noncommitting _ Hexr), app_nil_r.
+    split; [|split; [exact J2|]].
+    + intros x Hx. exact (J1 _ (or_intror Hx)).
+    + replace (Z.to_nat (commitSeq s - 0)) with (S (Z.to_nat (commitSeq s - 1))) by lia.
+      rewrite Hlo in Hevs. rewrite (firstn_snoc_nth _ _ _ Hevs), eff_concat_app. cbn [eff_concat].
+      rewrite firstn_length_le by (apply Nat.lt_le_incl, nth_error_Some; rewrite Hevs; discriminate).
+      replace (0 + Z.of_nat (Z.to_nat (commitSeq s - 1))) with seq by lia.
+      subst seq. rewrite <- Hem, app_nil_r, J3. f_equal.
+      unfold part_of. rewrite Heqs0. destruct (bemptied b); [reflexivity|].
+      replace done with (length (bevs b)) by lia. apply firstn_all.
+  - (* RetryGiveUp *)
+    destruct Hinv as (J1 & J2 & J3). destruct (find_bat_In _ _ _ Heqo) as [Hin Hseq].
+    pose proof (consec_bounds _ _ _ (wf_consec _ _ Hwf)) as [Hle Hbd]. specialize (Hbd _ (in_map bseq _ _ Hin)).
+    pose proof (wf_lo _ _ Hwf) as Hlo0.
+    assert (Hnc : committing b = false) by (unfold committing; rewrite Heqs0; reflexivity).
+    unfold inv_shape, emptied, lo_seq in *. proj_simpl.
+    rewrite (existsb_committing_upd _ _ _ _ Heqo) by (rewrite Hnc; reflexivity).
+    rewrite (partial_upd _ _ _ _ Heqo) by (rewrite (part_of_noncommitting _ Hnc); reflexivity).
+    cbn [existsb fseq fst].
+    split; [|split].
+    + intros x Hx. destruct (In_upd_bat_strong _ _ _ _ _ _ _ (wf_consec _ _ Hwf) Heqo Hx) as [[Hx1 Hne]| ->].
+      * rewrite (proj2 (Z.eqb_neq seq (bseq x))) by congruence. cbn [orb]. exact (J1 _ Hx1).
+      * cbn [bemptied bseq]. rewrite Hseq, Z.eqb_refl. cbn [orb]. rewrite andb_true_r. reflexivity.
+    + intros f [<-|Hf]; [cbn [fseq fst]; lia|exact (J2 _ Hf)].
+    + rewrite J3. f_equal. apply eff_concat_ext. intros j Hj.
+      pose proof (firstn_le_length (Z.to_nat (commitSeq s - (if existsb committing (flight s) then 1 else 0))) (rev (sealed_hist s))) as Hl.
+      rewrite (proj2 (Z.eqb_neq seq j)) by lia. reflexivity.
+Qed.
+
+Lemma inv_shape_init c : inv_shape c (init c).
+Proof. split; [|split]; cbn; intros; try contradiction. reflexivity. Qed.
+
+Lemma shape_reach c ls s : run c (init c) ls = Some s -> inv_shape c s.
+Proof. exact (run_invariant_wf c (inv_shape c) (inv_shape_step c) (inv_shape_init c) ls s). Qed.
+
+(* the general form: k whole batches (k = lo_seq s), given-up ones skipped when there is a dead queue,
+   then the first j events of batch k (the one inside its commit section, if any) *)
+Lemma committed_shape c ls s :
+  run c (init c) ls = Some s ->
+  exists j,
+    rev (committed s) =
+      eff_concat (emptied c s) 0 (firstn (Z.to_nat (lo_seq s)) (rev (sealed_hist s))) ++
+      firstn j (if emptied c s (lo_seq s) then [] else nth (Z.to_nat (lo_seq s)) (rev (sealed_hist s)) []).
+Proof.
+  intros Hr. pose proof (wf_reach _ _ _ Hr) as Hwf. destruct (shape_reach _ _ _ Hr) as (J1 & J2 & J3).
+  rewrite J3. destruct (flight s) as [|b r] eqn:Hfl; cbn [partial_of]; [exists O; reflexivity|].
+  assert (Hin : In b (flight s)) by (rewrite Hfl; left; reflexivity). rewrite <- Hfl in J1.
+  unfold part_of. destruct (bstage b) as [| | | | |k] eqn:Est; try (exists O; reflexivity).
+  assert (Hcm : committing b = true) by (unfold committing; rewrite Est; reflexivity).
+  rewrite <- (wf_cmt _ _ Hwf _ Hin Hcm), <- (J1 _ Hin). exists k. f_equal.
+  destruct (bemptied b); [rewrite firstn_nil; reflexivity|].
+  rewrite (nth_error_nth _ _ _ (wf_evs _ _ Hwf _ Hin)). reflexivity.
+Qed.
+
+(* non-retriable frame: nothing is ever given up *)
+Definition inv_plain (s : st) : Prop :=
+  failed_hist s = [] /\ forall b t ph, In b (flight s) -> bstage b = Sending t ph -> ph = PIdle.
+
+Lemma inv_plain_step c s l s' : retriable c = false -> inv_plain s -> step c s l = Some s' -> inv_plain s'.
+Proof.
+  intros Hret [P1 P2] H. unfold inv_plain.
+  destruct l; step_inv H; try (split; assumption); try congruence;
+    try solve [split; [exact P1|]; intros x tx phx Hx Hst; in_upd Hx; [exact (P2 _ _ _ Hx Hst)|];
+               cbn [bstage set_stage] in Hst; congruence].
+  - (* Seal *) split; [exact P1|]. intros x tx phx Hx Hst. apply in_app_or in Hx.
+    destruct Hx as [Hx|[<-|[]]]; [exact (P2 _ _ _ Hx Hst)|discriminate Hst].
+  - (* CommitEnd *) split; [exact P1|]. intros x tx phx Hx Hst. apply In_del_bat in Hx. exact (P2 _ _ _ Hx Hst).
+  - (* RetryResult *) pose proof (P2 _ _ _ (proj1 (find_bat_In _ _ _ Heqo)) Heqs0). discriminate.
+  - (* RetryGiveUp *) pose proof (P2 _ _ _ (proj1 (find_bat_In _ _ _ Heqo)) Heqs0). discriminate.
+Qed.
+
+Lemma plain_reach c ls s : retriable c = false -> run c (init c) ls = Some s -> failed_hist s = [].
+Proof.
+  intros Hret Hr. assert (Hi : inv_plain (init c)) by (split; cbn; [reflexivity|intros; contradiction]).
+  exact (proj1 (run_invariant c inv_plain (fun s0 l s1 Hp => inv_plain_step c s0 l s1 Hret Hp) ls _ _ Hi Hr)).
+Qed.
+
+Lemma committed_shape_plain c ls s :
+  (retriable c = false \/ deadq c = false) -> run c (init c) ls = Some s ->
+  exists j,
+    rev (committed s) =
+      concat (firstn (Z.to_nat (lo_seq s)) (rev (sealed_hist s))) ++
+      firstn j (nth (Z.to_nat (lo_seq s)) (rev (sealed_hist s)) []).
+Proof.
+  intros Hc Hr. destruct (committed_shape _ _ _ Hr) as [j Hj]. exists j.
+  assert (Hem : forall q, emptied c s q = false).
+  { intros q. unfold emptied. destruct Hc as [Hc|Hc]; [rewrite (plain_reach _ _ _ Hc Hr), andb_false_r|rewrite Hc]; reflexivity. }
+  rewrite Hem in Hj. rewrite Hj. f_equal.
+  rewrite <- (eff_concat_false _ 0). apply eff_concat_ext. intros; apply Hem.
+Qed.
+
+Lemma concat_split_prefix (L : list (list ev)) : forall k j,
+  exists rest, concat L = concat (firstn k L) ++ firstn j (nth k L []) ++ rest.
+Proof.
+  induction L as [|B L' IH]; intros k j.
+  - exists []. destruct k; cbn; rewrite firstn_nil; reflexivity.
+  - destruct k as [|k]; cbn [firstn nth concat app].
+    + exists (skipn j B ++ concat L'). rewrite app_assoc, firstn_skipn. reflexivity.
+    + destruct (IH k j) as [rest Hrest]. exists rest. rewrite Hrest, <- app_assoc. reflexivity.
+Qed.
+
+Lemma committed_prefix_of_added c ls s :
+  (retriable c = false \/ deadq c = false) -> run c (init c) ls = Some s ->
+  exists rest, rev (added s) = rev (committed s) ++ rest.
+Proof.
+  intros Hc Hr. destruct (committed_shape_plain _ _ _ Hc Hr) as [j Hj].
+  rewrite (added_is_sealed_plus_current _ _ _ Hr), Hj.
+  destruct (concat_split_prefix (rev (sealed_hist s)) (Z.to_nat (lo_seq s)) j) as [rest Hrest].
+  exists (rest ++ rev (cur_list s)). rewrite Hrest, <- !app_assoc. reflexivity.
+Qed.
+
+Lemma exactly_once_at_quiescence c ls s :
+  (retriable c = false \/ deadq c = false) -> run c (init c) ls = Some s ->
+  flight s = [] -> cur_list s = [] -> rev (committed s) = rev (added s).
+Proof.
+  intros Hc Hr Hfl Hcu. pose proof (wf_reach _ _ _ Hr) as Hwf.
+  destruct (committed_shape_plain _ _ _ Hc Hr) as [j Hj].
+  pose proof (wf_consec _ _ Hwf) as Hcs. pose proof (wf_len _ _ Hwf) as Hlen. rewrite Hfl in Hcs. cbn [map consec] in Hcs.
+  rewrite (added_is_sealed_plus_current _ _ _ Hr), Hcu, Hj. cbn [rev]. rewrite app_nil_r.
+  replace (Z.to_nat (lo_seq s)) with (length (rev (sealed_hist s))) by (rewrite rev_length; lia).
+  rewrite firstn_all, nth_overflow by lia. rewrite firstn_nil, app_nil_r. reflexivity.
+Qed.
+
+(* dead queue: while a given-up batch is inside its commit section no event is committed *)
+Lemma deadqueue_no_commit_event c ls s e s' :
+  deadq c = true -> run c (init c) ls = Some s -> step c s (LCommitEv e) = Some s' ->
+  exists b, committing_bat (flight s) = Some b /\ ~ In (bseq b) (map fseq (failed_hist s)).
+Proof.
+  intros Hdq Hr H. destruct (shape_reach _ _ _ Hr) as (J1 & _ & _). step_inv H.
+  exists b. split; [reflexivity|]. destruct (committing_bat_Some _ _ Heqo) as [Hin _].
+  destruct (bemptied b) eqn:Eem; [discriminate|]. rewrite (J1 _ Hin) in Eem. unfold emptied in Eem. rewrite Hdq in Eem.
+  cbn [andb] in Eem. intros Hq. apply in_map_iff in Hq. destruct Hq as (f & Hf1 & Hf2).
+  assert (Hex : existsb (fun f0 => fseq f0 =? bseq b) (failed_hist s) = true).
+  { apply existsb_exists. exists f. split; [exact Hf2|lia]. }
+  congruence.
+Qed.
+
+(* ... and the length announced by its CommitBegin is 0 *)
+Lemma deadqueue_commit_begin_zero c ls s q n s' :
+  deadq c = true -> run c (init c) ls = Some s -> step c s (LCommitBegin q n) = Some s' ->
+  In q (map fseq (failed_hist s)) -> n = 0.
+Proof.
+  intros Hdq Hr H Hq. destruct (shape_reach _ _ _ Hr) as (J1 & _ & _). step_inv H.
+  destruct (find_bat_In _ _ _ Heqo) as [Hin Hseq]. rewrite H0, (J1 _ Hin). unfold emptied. rewrite Hdq. cbn [andb].
+  apply in_map_iff in Hq. destruct Hq as (f & Hf1 & Hf2).
+  assert (Hex : existsb (fun f0 => fseq f0 =? bseq b) (failed_hist s) = true).
+  { apply existsb_exists. exists f. split; [exact Hf2|lia]. }
+  rewrite Hex. reflexivity.
+Qed.
+
+(* ------------------------------------------------------------------------------------------- *)
+(* corollaries in the form Properties/C08.v and C09.v quote them                                 *)
+
+Lemma batch_bounds_count c ls s :
+  0 < maxCount c -> 0 <= maxBytes c -> run c (init c) ls = Some s ->
+  forall b, In b (sealed_hist s) -> 0 < Z.of_nat (length b) <= maxCount c.
+Proof.
+  intros Hc Hb Hr b Hin. pose proof (batch_bounds c ls s (Z.lt_le_incl _ _ Hc) Hb Hr b Hin) as Hok.
+  split; [|exact (batch_ok_count _ _ Hok Hc)]. destruct Hok as [Hne _]. destruct b; [contradiction|cbn [length]; lia].
+Qed.
+
+Lemma batch_bounds_bytes c ls s :
+  0 <= maxCount c -> 0 < maxBytes c -> run c (init c) ls = Some s ->
+  forall b, In b (sealed_hist s) ->
+    bytes_of b < maxBytes c \/ exists b0 e, b = b0 ++ [e] /\ bytes_of b0 < maxBytes c.
+Proof.
+  intros Hc Hb Hr b Hin. exact (batch_ok_bytes _ _ (batch_bounds c ls s Hc (Z.lt_le_incl _ _ Hb) Hr b Hin) Hb).
+Qed.
+
+Lemma stop_no_unsent_commit c ls s :
+  run c (init c) ls = Some s -> stopped s = true ->
+  forall q evs, In q (commit_batches s) -> nth_error (rev (sealed_hist s)) (Z.to_nat q) = Some evs ->
+                has_iter evs = true -> In q (sent_hist s).
+Proof. intros Hr _. exact (commit_after_own_send c ls s Hr). Qed.
+
+Lemma never_given_up_when_retry_negative c ls s :
+  retry c < 0 -> run c (init c) ls = Some s ->
+  forall q t stopbo evs, In (q, t, stopbo, evs) (failed_hist s) -> stopbo = true.
+Proof.
+  intros Hneg Hr q t stopbo evs Hin. destruct stopbo; [reflexivity|].
+  destruct (retries_at_least c ls s Hr _ _ _ Hin) as [H0 _]. lia.
+Qed.
+
+Lemma giveup_once_entries c ls s :
+  run c (init c) ls = Some s ->
+  forall f1 f2, In f1 (failed_hist s) -> In f2 (failed_hist s) -> fseq f1 = fseq f2 -> f1 = f2.
+Proof.
+  intros Hr. pose proof (giveup_once c ls s Hr) as Hnd. induction (failed_hist s) as [|f r IH]; [intros ? ? []|].
+  cbn [map] in Hnd. inversion Hnd as [|? ? Hnin Hnd']; subst. intros f1 f2 [<-|H1] [<-|H2] Heq.
+  - reflexivity.
+  - exfalso. apply Hnin. rewrite Heq. exact (in_map fseq _ _ H2).
+  - exfalso. apply Hnin. rewrite <- Heq. exact (in_map fseq _ _ H1).
+  - exact (IH Hnd' _ _ H1 H2 Heq).
 Qed.
